@@ -23,8 +23,9 @@ ASSUMPTIONS = ["comparison on canonical forms in which the wire name has been re
 NEUTRAL = "zqneutral"
 CONTROLS = ["alpha", "beta", "gamma", "delta", "count", "name", "title", "value", "amount", "status", "owner", "created", "updated", "size", "color",
             "weight", "height", "label", "note", "flavour"]
-MODEL_SHAPES = ["int", "date", "array-model", "union", "int-first", "addl-typed", "formats"]
-EP_SHAPES = [(loc, body) for loc in ("path", "query", "header", "cookie") for body in (False, True)] + [("query-uuid", False), ("query-formats", True)]
+MODEL_SHAPES = ["int", "date", "array-model", "union", "int-first", "addl-typed", "formats", "multipart", "literal-enum"]
+MODEL_OPTIONS = {"literal-enum": {"literal_enums": True}}
+EP_SHAPES = [(loc, body) for loc in ("path", "query", "header", "cookie") for body in (False, True)] + [("query-uuid", False), ("query-formats", True), ("path-dtq", False)]
 _CANDS = {}
 
 
@@ -40,6 +41,16 @@ def _model_doc(name, shape):
             "before": {"type": "string", "format": "uuid"}, name: {"type": "string", "format": "uuid"},
             "other": {"type": "string", "format": "date-time"}, "sibling": {"type": "string", "format": "date"},
             "after": {"oneOf": [{"type": "string", "format": "uuid"}, {"type": "null"}]}}}})
+    if shape == "multipart":
+        # the model is a multipart/form-data body: to_multipart() encodes the candidate next to an array and a nested object (json.dumps)
+        return gen.base_doc({"M": {"type": "object", "required": ["sibling"], "properties": {
+            "sibling": {"type": "array", "items": {"type": "string"}}, name: {"type": "integer"}, "other": {"type": "object", "properties": {"Vx9q": {"type": "integer"}}}}}},
+            paths={"/up": {"post": {"operationId": "upOp", "requestBody": {"required": True, "content": {"multipart/form-data": {"schema": {"$ref": "#/components/schemas/M"}}}},
+                                    "responses": {"204": {"description": "n"}}}}})
+    if shape == "literal-enum":
+        # literal_enums: every enum sibling brings a module-level check_<class>() helper and a <CLASS>_VALUES set into the model module
+        return gen.base_doc({"M": {"type": "object", "properties": {
+            "sibling": {"type": "string", "enum": ["s1", "s2"]}, name: {"type": "integer"}, "other": {"type": "array", "items": {"type": "integer", "enum": [1, 2]}}}}})
     if shape == "int-first":
         # the candidate is decoded BEFORE a sibling array / union whose template locals are derived from the sibling's name
         return gen.base_doc({"M": {"type": "object", "properties": {
@@ -65,6 +76,10 @@ def _model_instances(name, shape):
         return [{}, {name: 5, "other": "o"}, {name: 5, "other": "o", "Ex9q": {"Vx9q": 1}, "Kx9q": {}}, {"Ex9q": {"Vx9q": 2}}, {name: 0, "Ex9q": {}}]
     if shape == "formats":
         return [{}, {name: U1}, {"before": U2, name: U1, "other": "2020-01-02T03:04:05+00:00", "sibling": "2020-01-02", "after": U2}, {name: U2, "after": None}, {"before": U1, "after": U1}]
+    if shape == "multipart":
+        return [{"sibling": []}, {"sibling": ["a", "b"], name: 5, "other": {"Vx9q": 1}}, {"sibling": ["a"], name: 0}]
+    if shape == "literal-enum":
+        return [{}, {"sibling": "s1", name: 5, "other": [1, 2]}, {name: 0, "other": []}, {"sibling": "s2"}]
     if shape == "int-first":
         return [{}, {name: 5, "sibling": ["2021-01-01", "2021-01-02"], "other": "2020-02-02"}, {name: 0, "sibling": [], "other": None, "Ex9q": 1}, {name: 3}]
     v = {"int": [5, 0], "date": ["2020-01-02"], "array-model": [[{"Vx9q": 1}, {}], []], "union": [3, {"Vx9q": 2}, None]}[shape]
@@ -88,6 +103,15 @@ def _ep_doc(name, loc, body):
             op["requestBody"] = {"required": True, "content": {"application/json": {"schema": {"$ref": "#/components/schemas/In"}}}}
         comps = {"Out": {"type": "object", "properties": {"ok": {"type": "boolean"}}}, "In": {"type": "object", "properties": {"payload": {"type": "string"}}}}
         return gen.base_doc(comps, paths={"/things": {"post": op}})
+    if loc == "path-dtq":
+        # the candidate is a PATH parameter next to query parameters that are transformed into json_<name> locals before the URL is built
+        op = {"operationId": "theOp", "parameters": [{"name": name, "in": "path", "required": True, "schema": {"type": "string"}},
+                                                      {"name": "fixedq", "in": "query", "required": True, "schema": {"type": "integer"}},
+                                                      {"name": "sibling", "in": "query", "required": True, "schema": {"type": "string", "format": "date-time"}},
+                                                      {"name": "other", "in": "query", "required": True, "schema": {"type": "array", "items": {"type": "string", "format": "date"}}}],
+              "responses": {"200": {"description": "d", "content": {"application/json": {"schema": {"$ref": "#/components/schemas/Out"}}}}}}
+        comps = {"Out": {"type": "object", "properties": {"ok": {"type": "boolean"}}}}
+        return gen.base_doc(comps, paths={"/things/{" + name + "}/tail": {"post": op}})
     path = "/things/{" + name + "}/tail" if loc == "path" else "/things"
     op = {"operationId": "theOp", "parameters": [{"name": name, "in": loc, "required": loc == "path", "schema": {"type": "string"}},
                                                   {"name": "fixedq", "in": "query", "required": True, "schema": {"type": "integer"}}],
@@ -139,7 +163,7 @@ def candidates():
         return _CANDS
     roles = {}
     for shape in MODEL_SHAPES:
-        r = gen.generate(_model_doc(NEUTRAL, shape))
+        r = gen.generate(_model_doc(NEUTRAL, shape), **MODEL_OPTIONS.get(shape, {}))
         for f, b in r.tree.items():
             if f.startswith("models/") or f == "types.py":
                 for n, role in _identifiers(b.decode(), "model").items():
@@ -207,7 +231,7 @@ def _canon(obj, name):
 
 def _behaviour_model(name, shape):
     from checks.c02 import find_class
-    res = gen.generate(_model_doc(name, shape))
+    res = gen.generate(_model_doc(name, shape), **MODEL_OPTIONS.get(shape, {}))
     if res.crash:
         return ("crash", res.crash)
     if res.rejected or res.diags:
@@ -225,7 +249,13 @@ def _behaviour_model(name, shape):
                 o = cls.from_dict(copy.deepcopy(inst))
                 e = o.to_dict()
                 o2 = cls.from_dict(copy.deepcopy(e))
-                out.append(["ok", e, o2 == o, sorted(o.additional_keys)])
+                row = ["ok", e, o2 == o, sorted(o.additional_keys)]
+                if shape == "multipart":
+                    try:
+                        row.append({k: ([x.decode("latin-1") if isinstance(x, bytes) else x for x in v] if isinstance(v, tuple) else repr(v)) for k, v in dict(o.to_multipart()).items()})      # a dict: keys are canonicalised BEFORE sorting
+                    except Exception as exc:  # noqa: BLE001
+                        row.append(["to_multipart raises", type(exc).__name__])
+                out.append(row)
             except Exception as exc:  # noqa: BLE001
                 out.append(["raises", type(exc).__name__])
     try:
@@ -250,7 +280,7 @@ def _behaviour_ep(name, loc, body):
             return ("broken", f"import: {type(exc).__name__}: {str(exc)[:120]}")
         import httpx
         cap = wire.Capture(lambda request: httpx.Response(200, json={"ok": True}))
-        real_loc = "query" if loc.startswith("query-") else loc
+        real_loc = "query" if loc.startswith("query-") else ("path" if loc == "path-dtq" else loc)
         mine = [q for q in ep[f"{real_loc}_params"] if q["name"] == name] or ep[f"{real_loc}_params"][:1]
         py = mine[0]["py"] if mine else None
         fixed = next(q["py"] for q in ep["query_params"] if q["name"] == "fixedq")
@@ -258,8 +288,14 @@ def _behaviour_ep(name, loc, body):
             return ("diag", ["parameter not offered"])
         import datetime
         import uuid as _uuid
-        argvals = ("Wv1",) if loc == "path" else ("Wv1", None)
+        argvals = ("Wv1",) if loc in ("path", "path-dtq") else ("Wv1", None)
         extra = {}
+        if loc == "path-dtq":
+            for q in ep["query_params"]:
+                if q["name"] == "sibling":
+                    extra[q["py"]] = datetime.datetime(2020, 1, 2, 3, 4, 5)
+                if q["name"] == "other":
+                    extra[q["py"]] = [datetime.date(2021, 2, 3)]
         if loc == "query-uuid":
             argvals = (_uuid.UUID(U1), None, "<none>")
         elif loc == "query-formats":
